@@ -10,6 +10,10 @@
 (* values and normalized paths, as lists (the data was recorded with sorted  *)
 (* object members, which is the canonical member order of JsonPath!Kids).    *)
 (* A disagreement is a spec bug: the check reports an infrastructure error.  *)
+(* Functions family: cases with function calls / arithmetic in filters, and  *)
+(* cases whose whole expression is a function call (kind "top": fe + segs,   *)
+(* evaluated with JsonPath!TopEval, values only) are part of the corpus;     *)
+(* non-integer numbers arrive as normalised rationals <<"rat", n, d>>.       *)
 EXTENDS JsonPath, Json, IOUtils, TLC
 VARIABLE l
 Ref == ndJsonDeserialize(IOEnv.C12REF)
@@ -23,7 +27,10 @@ FromWire(w) == CASE w[1] = "arr" -> JArr([i \in 1..Len(w[2]) |-> FromWire(w[2][i
 Init == l = 0
 Next == l = 0 /\ l' \in 1..Len(Ref)
 
-Got(c) == LET doc == FromWire(c.doc)
+GotTop(c) == LET doc == FromWire(c.doc)
+                 t == TopEval(c.fe, c.segs, doc)
+             IN [dc |-> t.dc, vals |-> t.vals, paths |-> <<>>]
+GotPath(c) == LET doc == FromWire(c.doc)
               raw == EvalRaw(c.segs, doc)
               ns == NodesOf(raw)
               i0 == IF c.nodups THEN NoDupIdx(ns) ELSE AllIdx(ns)
@@ -31,6 +38,7 @@ Got(c) == LET doc == FromWire(c.doc)
           IN [dc |-> Unconstrained(raw),
               vals |-> [i \in 1..Len(ix) |-> NVal(ns[ix[i]])],
               paths |-> [i \in 1..Len(ix) |-> NormPath(NPath(ns[ix[i]]))]]
+Got(c) == IF c.kind = "top" THEN GotTop(c) ELSE GotPath(c)
 Agrees(c) == LET g == Got(c) IN
   \/ g.dc
   \/ /\ c.hasv => (Len(g.vals) = Len(c.want) /\ \A i \in 1..Len(c.want) : JEq(g.vals[i], FromWire(c.want[i])))
